@@ -310,6 +310,62 @@ func onceProp(c OnceCase, r *pbt.R) error {
 	return nil
 }
 
+// Once on a cache whose entries expire: "a single time for as long as its cache entry lives" - after the entry has
+// expired the next call runs the callback again, ONCE, and that result is served until it expires in turn.
+// Runs inside a synctest bubble. Gaps are milliseconds before each call; the entry lives onceLife.
+type OnceExpCase struct {
+	Gaps []int `json:"gaps_ms"`
+}
+
+const onceLife = 10 * time.Millisecond
+
+var onceGaps = []int{0, 3, 10, 11, 25}
+
+func onceExpProp(c OnceExpCase, r *pbt.R) error {
+	if len(c.Gaps) > 64 {
+		return nil
+	}
+	cc := cache.New[string, int](onceLife, 0)
+	t0 := time.Now()
+	count := 0
+	cached, deadline := 0, time.Duration(-1) // value served and the instant at which its entry expires (-1: nothing stored yet)
+	reran := false
+	for i, g := range c.Gaps {
+		if g > 0 {
+			time.Sleep(time.Duration(g) * time.Millisecond)
+		}
+		now := time.Since(t0)
+		before := count
+		got := gogu.Once[string, int, int](cc, func() int { count++; return 100 + count })
+		ran := count - before
+		ctx := fmt.Sprintf("Once on a cache whose entries live %v, calls after gaps %v ms: call %d at %v", onceLife, c.Gaps[:i+1], i+1, now)
+		switch {
+		case deadline >= 0 && now < deadline:
+			if ran != 0 || got != cached {
+				return fmt.Errorf("%s ran the callback %d time(s) and returned %d; the entry (value %d) lives until %v: want no run and that value", ctx, ran, got, cached, deadline)
+			}
+		case deadline >= 0 && now == deadline:
+			// exactly at the deadline: served from the cache or computed again, consistently
+			if !(ran == 0 && got == cached) && !(ran == 1 && got == 100+count) {
+				return fmt.Errorf("%s (exactly at the deadline) ran the callback %d time(s) and returned %d", ctx, ran, got)
+			}
+			if ran == 1 {
+				cached, deadline = got, now+onceLife
+			}
+		default:
+			if ran != 1 || got != 100+count {
+				return fmt.Errorf("%s ran the callback %d time(s) and returned %d; no live entry exists (the previous one expired at %v): want exactly one run and its result", ctx, ran, got, deadline)
+			}
+			if deadline >= 0 {
+				reran = true
+			}
+			cached, deadline = got, now+onceLife
+		}
+	}
+	r.NonTrivialIf(reran, "a call after the entry expired")
+	return nil
+}
+
 // ---------------------------------------------------------------------------
 // Retry / RetryWithDelay
 
@@ -618,6 +674,25 @@ func TestProp(t *testing.T) {
 			},
 			RapidQuick: 100, RapidThorough: 2000,
 			Fixed: []OnceCase{{Calls: 1}, {Calls: 2}, {Calls: 5}, {Calls: 3, Zero: true}},
+		},
+		&pbt.Check[OnceExpCase]{
+			Name: "once-expiry",
+			Rule: "Once(cache, fn) on a cache whose entries live 10ms (no cleanup goroutine), in virtual time: calls separated by gaps from {0,3,10,11,25}ms. Oracle: while the entry lives no run and the stored result; after it has expired exactly one run, whose result is served until it expires in turn " +
+				"(exactly at the deadline either). Enumerated: every gap sequence of length 1..5 (thorough 6); random: up to 30 calls. Non-trivial = some call came after an expiry.",
+			Enum: func(s pbt.Src, thorough bool) OnceExpCase {
+				n := 5
+				if thorough {
+					n = 6
+				}
+				return OnceExpCase{Gaps: pbt.Seq(s, 1, n, func(s pbt.Src) int { return onceGaps[s.Intn(len(onceGaps))] })}
+			},
+			Gen: func(s pbt.Src, _ bool) OnceExpCase {
+				return OnceExpCase{Gaps: pbt.Seq(s, 1, 30, func(s pbt.Src) int { return pbt.Pick(s, 0, 1, 3, 9, 10, 11, 12, 25, 40) })}
+			},
+			Prop:       onceExpProp,
+			OutOfEnum:  func(c OnceExpCase, th bool) bool { return len(c.Gaps) > 6 },
+			Bubble:     true,
+			RapidQuick: 200, RapidThorough: 5000,
 		},
 		&pbt.Check[RetryCase]{
 			Name: "retry",
